@@ -55,8 +55,8 @@ type c07Prog struct {
 var c07Muts = []string{
 	"payload-flip", "payload-insert", "payload-delete", "payload-set", "payload-ws-replace", "payload-ws-insert", "payload-ws-delete", "payload-append-nl",
 	"logid",
-	"next-drop", "next-add", "next-add-dup", "next-add-undef", "next-swap", "next-replace", "next-move-to-refs",
-	"refs-drop", "refs-add", "refs-add-dup", "refs-add-undef", "refs-swap", "refs-replace",
+	"next-drop", "next-add", "next-add-dup", "next-add-undef", "next-swap", "next-replace", "next-move-to-refs", "next-recode",
+	"refs-drop", "refs-add", "refs-add-dup", "refs-add-undef", "refs-swap", "refs-replace", "refs-recode",
 	"v", "clock-id", "clock-time+1", "clock-time-1", "clock-time-0", "clock-time-set",
 	"key-other-writer", "key-flip", "key-truncate", "key-extended", "key-garbage", "key-cleared", "sig-other-entry", "sig-flip", "sig-truncate", "sig-other-writer-same-content",
 	// a field replaced by its "empty" value
@@ -310,7 +310,7 @@ func runC07(tb ev.TB, p c07Prog) ev.Result {
 		}
 	case "logid":
 		m.SetLogID(p.LogID + string(rune('a'+p.Arg%26)))
-	case "next-drop", "next-swap", "next-replace", "next-move-to-refs", "refs-drop", "refs-swap", "refs-replace":
+	case "next-drop", "next-swap", "next-replace", "next-move-to-refs", "refs-drop", "refs-swap", "refs-replace", "next-recode", "refs-recode":
 		isNext := strings.HasPrefix(p.Mut, "next")
 		list := append([]cid.Cid(nil), e.GetNext()...)
 		if !isNext {
@@ -332,6 +332,18 @@ func runC07(tb ev.TB, p c07Prog) ev.Result {
 			list[i], list[j] = list[j], list[i]
 		case "replace":
 			list[i] = freshCid(e.GetNext(), e.GetRefs())
+		case "recode":
+			// another identifier over the SAME digest: other codec, or the version-0 form - it names another block
+			old := list[i]
+			variants := []cid.Cid{cid.NewCidV1(cid.Raw, old.Hash()), cid.NewCidV1(cid.DagProtobuf, old.Hash()), cid.NewCidV1(cid.DagCBOR, old.Hash())}
+			if dm, err := mh.Decode(old.Hash()); err == nil && dm.Code == mh.SHA2_256 && dm.Length == 32 {
+				variants = append(variants, cid.NewCidV0(old.Hash()))
+			}
+			nc := variants[p.Arg2%len(variants)]
+			if nc.Equals(old) {
+				nc = variants[(p.Arg2+1)%len(variants)]
+			}
+			list[i] = nc
 		case "move-to-refs":
 			moved := list[i]
 			list = append(list[:i], list[i+1:]...)
